@@ -345,6 +345,8 @@ class Ref:
         self.log = []               # (severity, path, message) acked, in order of acknowledgement
         self.log_times = []         # (invoke seq, return seq) per acked message (in-situ mode)
         self.db_only = set()        # keys stored through the database only
+        self.annot_writes = {}      # name -> [(text, invoke seq, return seq)] acknowledged writes
+        self.clock = 0
 
     def copy(self):
         r = Ref()
@@ -354,7 +356,22 @@ class Ref:
         r.log = list(self.log)
         r.log_times = list(self.log_times)
         r.db_only = set(self.db_only)
+        r.annot_writes = {k: list(v) for k, v in self.annot_writes.items()}
+        r.clock = self.clock
         return r
+
+    def note_annotation(self, name, text, times):
+        if times is None:
+            self.clock += 1
+            times = (10**12 + self.clock, 10**12 + self.clock)     # sequential mode
+        self.annot_writes.setdefault(name, []).append((text, times[0], times[1]))
+        self.annot[name] = text
+
+    def annotation_candidates(self, name):
+        """Linearizable outcomes: the text of any acknowledged write that is not definitely
+        before another acknowledged write of the same name (A.return < B.invoke)."""
+        ws = self.annot_writes.get(name, [])
+        return {t for (t, i, r) in ws if not any(r < i2 for (_t2, i2, _r2) in ws)}
 
 
 SUB = 'sub1'
@@ -383,7 +400,7 @@ def apply_ack(ref, op):
         # first binding of a name wins (store_key does nothing if the name exists)
         if name not in ref.names:
             ref.names[name] = e['key']
-        ref.annot[name] = e['desc']
+        ref.note_annotation(name, e['desc'], op.get('_times'))
     elif k == 'db_store_model':
         e = POOL[op['model']]
         ref.keys_acked.setdefault(e['key'], {'results': False})
@@ -391,7 +408,7 @@ def apply_ack(ref, op):
         ref.log.append((op['sev'], log_path_of(op), op['msg']))
         ref.log_times.append(op.get('_times'))
     elif k == 'annotate':
-        ref.annot[POOL[op['model']]['name']] = op['text']
+        ref.note_annotation(POOL[op['model']]['name'], op['text'], op.get('_times'))
 
 
 def name_conflict(ref, op):
@@ -603,7 +620,7 @@ def check_state(root, ref, inflight, V, where, wl_models, do_progress=True):
         if prob is None and me.model.name != plain:
             prob = f'name is {me.model.name!r}'
         want = ref.annot.get(name)
-        alts = {want} | infl.annot_alts.get(name, set())
+        alts = ref.annotation_candidates(name) | infl.annot_alts.get(name, set())
         if prob is None and me.model.description not in alts:
             prob = f'description is {me.model.description!r}, stored {want!r}'
         if prob is not None:
@@ -651,7 +668,7 @@ def check_state(root, ref, inflight, V, where, wl_models, do_progress=True):
                    f'{where}: unacknowledged name {name!r} is retrievable but {prob}')
     # ---- annotations (also ones written with store_annotation only)
     for name, text in ref.annot.items():
-        alts = {text} | infl.annot_alts.get(name, set())
+        alts = ref.annotation_candidates(name) | infl.annot_alts.get(name, set())
         try:
             c_, plain = cx(name)
             got = c_.retrieve_annotation(plain)
@@ -670,7 +687,15 @@ def check_state(root, ref, inflight, V, where, wl_models, do_progress=True):
     # ---- R4 progress: stores of keys that were not in flight succeed
     if do_progress:
         ref2 = ref.copy()
-        for idx in wl_models:
+        # order: first a model with ANOTHER dataset than the interrupted stores (it may take
+        # over a file number the interrupted store had reserved), then the ones sharing it
+        order = list(wl_models)
+        if infl.datasets:
+            others = [e_['idx'] for e_ in POOL if e_['dataset'] not in infl.datasets]
+            if others and not any(POOL[i]['dataset'] not in infl.datasets for i in order):
+                order.append(others[len(infl.ops) % len(others)])
+            order.sort(key=lambda i: POOL[i]['dataset'] in infl.datasets)
+        for idx in order:
             e = POOL[idx]
             if e['key'] in infl.keys:
                 continue
